@@ -137,7 +137,7 @@ int main (void)
     a.out = (unsigned char **) calloc ((size_t) P, sizeof (unsigned char *));
     a.viol = (int *) calloc ((size_t) P, sizeof (int));
     g_viol = a.viol;
-    int mem0 = sc_memory_status (-1);
+    int mem0 = sc_memory_status (-1) + sc_memory_status (sc_package_id);
     simmpi_opts o; simmpi_report rep;
     simmpi_opts_default (&o);
     o.nranks = P; o.seed = seed; o.adversary = adv; o.trace_path = tpath;
@@ -163,7 +163,7 @@ int main (void)
     FILE *f = fopen (tpath, "r");
     if (f) { static char buf[65536]; size_t n; while ((n = fread (buf, 1, sizeof buf, f)) > 0) fwrite (buf, 1, n, stdout); fclose (f); }
     printf ("TRACE-END\n");
-    printf ("END %d mem=%d\n", run, sc_memory_status (-1) - mem0);
+    printf ("END %d mem=%d\n", run, sc_memory_status (-1) + sc_memory_status (sc_package_id) - mem0);
     fflush (stdout);
     simmpi_report_free (&rep);
     free (a.out); free (a.viol); g_viol = NULL;
